@@ -245,3 +245,19 @@ def settle_bounds(chk, prog, roots, exempt=("filippo.io/edwards25519.checkInitia
     if hit:
         ob.verdict = "violated"
         chk.violation("multi-scalar routines above the symbolic bound", hit["what"], hit)
+
+
+def state_shape(chk, prog):
+    """the inductive arguments quantify over 'an arbitrary valid Point / Scalar / Element' = arbitrary values of the
+    coordinate / limb fields.  If a type has gained further fields (caches, flags), a pre-state is more than that and the
+    harness pre-states (extra fields zero, as in a freshly produced value) no longer cover all reachable states: the
+    check is then undecided (and the history batteries run)."""
+    want = {"filippo.io/edwards25519.Point": ["_", "x", "y", "z", "t"], "filippo.io/edwards25519.Scalar": ["s"],
+            "filippo.io/edwards25519/field.Element": ["l0", "l1", "l2", "l3", "l4"]}
+    for tn, fields in want.items():
+        try:
+            have = [f["name"] for f in prog.T(tn).u.fields]
+        except Exception as e:
+            have = ["?%r" % (e,)]
+        chk.soft("%s has no state other than %s (harness pre-states cover every reachable value)" % (tn.split(".")[-1], [f for f in fields if f != "_"]), have == fields, [], "type shape from SSA",
+                 detail="fields now: %s" % have)
